@@ -621,7 +621,11 @@ func c04Run(c *Ctx, qs []c04Req, only string) {
 		if s[0] != 0 && s[8] == 1 {
 			return true // party set twice
 		}
-		for _, pat := range []string{"||example.org^", "ads", ".org/*"} {
+		prodPats := []string{"||example.org^", "ads", ".org/*"}
+		if !c.Thorough() {
+			prodPats = prodPats[:2] // (".org/*" on its own is in the pattern-target layer)
+		}
+		for _, pat := range prodPats {
 			r := c04Rule{pattern: pat}
 			for i, v := range s {
 				if v > 0 {
@@ -635,7 +639,7 @@ func c04Run(c *Ctx, qs []c04Req, only string) {
 	// pattern-target layer: which string the pattern is applied to (URL or bare
 	// hostname) for patterns that spell out, embed or omit the scheme
 	for _, pat := range []string{"|http://example.org^", "*://example.org^", "p://example.org", "http://example.org^", "https://example.org^", "://example.org^", "example.org^",
-		"/example.org.", "/exa_mple.org.", "||example.org^", "|example.org|", "example.org|", "ws://example.org", "|ads.sub", "EXAMPLE.org^"} {
+		"/example.org.", "/exa_mple.org.", ".org/*", "||example.org^", "|example.org|", "example.org|", "ws://example.org", "|ads.sub", "EXAMPLE.org^"} {
 		jobs = append(jobs, job{c04Rule{pattern: pat, denyallow: []string{"x.com"}}, "pattern-target"})
 		jobs = append(jobs, job{c04Rule{pattern: pat, matchCase: true, dnstypes: []nv{{"TXT", true}}}, "pattern-target"})
 		jobs = append(jobs, job{c04Rule{pattern: pat, notMatchCase: true}, "pattern-target"})
@@ -715,7 +719,7 @@ func c04Run(c *Ctx, qs []c04Req, only string) {
 	c.Run.Set("requests", int64(len(qs)))
 	c.Run.Set("evaluations", evals)
 	c.Run.Set("distinct_nontrivial", nrules)
-	c.Run.Set("rule", fmt.Sprintf("layer 1: for each of 6 value-list modifiers every ordered value list of length 1..%d over its alphabet (all permutations included) on three patterns; layer 2: the full product absent/representative-1/representative-2 over 9 modifier slots on three patterns; pattern-target layer: 15 patterns that spell out, embed or omit the scheme (plain, $match-case, $~match-case) against URL and hostname requests; each rule against %d requests (6 URLs x 16 sources x 4 types; 3 hostnames x 5 DNS types x 9 client names (quoted, with blanks, non-ASCII) x 8 client addresses incl. IPv4-mapped x 2..5 tag sets; hexadecimal-looking host names); content-type layer: each of the 11 content-type modifiers alone, negated and in every ordered pair with the three sign combinations against a request of each of the 12 types, likewise every ordered pair of party modifiers and every document-only modifier on blocking and exception rules; distinct_nontrivial = distinct rules accepted by the parser", maxVals, len(qs)))
+	c.Run.Set("rule", fmt.Sprintf("layer 1: for each of 6 value-list modifiers every ordered value list of length 1..%d over its alphabet (all permutations included) on three patterns; layer 2: the full product absent/representative-1/representative-2 over 9 modifier slots on two (thorough: three) patterns; pattern-target layer: 15 patterns that spell out, embed or omit the scheme (plain, $match-case, $~match-case) against URL and hostname requests; each rule against %d requests (6 URLs x 16 sources x 4 types; 3 hostnames x 5 DNS types x 9 client names (quoted, with blanks, non-ASCII) x 8 client addresses incl. IPv4-mapped x 2..5 tag sets; hexadecimal-looking host names); content-type layer: each of the 11 content-type modifiers alone, negated and in every ordered pair with the three sign combinations against a request of each of the 12 types, likewise every ordered pair of party modifiers and every document-only modifier on blocking and exception rules; distinct_nontrivial = distinct rules accepted by the parser", maxVals, len(qs)))
 	c.Run.Set("exhaustive", exhaustive)
 	c.Run.Assumption("request fields (hostnames, third-party) are taken from rules.NewRequest; their correctness is property C17")
 	c.Run.Assumption("the pattern reference is the C03 mask automaton run on the URL, or on the bare hostname for hostname requests unless the pattern starts with ||, http://, https:// or ://")
